@@ -20,6 +20,7 @@ import (
 	"encoding/base64"
 	"errors"
 	"fmt"
+	"io"
 	"net/http"
 	"net/http/httptest"
 	"net/url"
@@ -99,11 +100,17 @@ type pSite struct {
 	want    int
 	static  bool // the page shows none of the inputs
 	xhrOnly bool
+	bare    bool // not an ErrorPage call site: the answer does not depend on X-Requested-With
+	few     bool // slow site: only a few (Accept, XHR) combinations
 	run     func(w *world, g *hostile, xhr bool) (*httptest.ResponseRecorder, *errData)
 }
 
 func (w *world) pDo(pw *c.ProxyWorld, target string, xhr bool, cookies ...*http.Cookie) *httptest.ResponseRecorder {
-	req, ok := newReq("GET", proxyHost, target)
+	return w.pDoM(pw, "GET", target, xhr, cookies...)
+}
+
+func (w *world) pDoM(pw *c.ProxyWorld, method, target string, xhr bool, cookies ...*http.Cookie) *httptest.ResponseRecorder {
+	req, ok := newReq(method, proxyHost, target)
 	if !ok {
 		return nil
 	}
@@ -113,7 +120,7 @@ func (w *world) pDo(pw *c.ProxyWorld, target string, xhr bool, cookies ...*http.
 	for _, ck := range cookies {
 		req.AddCookie(ck)
 	}
-	return wireOf(pw, pw.Handler).roundTrip(req)
+	return wireOf(pw, w.proxyHandler(pw)).roundTrip(req)
 }
 
 // startFlow runs the real OAuthStart and returns the sealed state and the CSRF cookie.
@@ -128,7 +135,8 @@ func (w *world) startFlow(pw *c.ProxyWorld) (string, *http.Cookie) {
 		}
 	}
 	if state == "" || csrf == nil {
-		c.Must(fmt.Errorf("could not start a proxy flow: status %d", rec.Code))
+		// OAuthStart no longer hands out state + CSRF cookie: the sites that need them are not reached
+		return "", &http.Cookie{Name: pw.CookieName + "_csrf", Value: ""}
 	}
 	return state, &http.Cookie{Name: csrf.Name, Value: csrf.Value}
 }
@@ -146,6 +154,17 @@ func (w *world) proxySession(pw *c.ProxyWorld, g *hostile, email string, refresh
 		ValidDeadline: time.Now().Add(validIn),
 	}
 	return &http.Cookie{Name: pw.CookieName, Value: pw.Seal(s)}
+}
+
+var faultMethods = []string{"GET", "POST", "PUT", "DELETE", "PATCH", "HEAD"}
+
+// an authenticated request (valid session for the host, e-mail accepted by the policy) with markup
+// in the decoded path and the query, any method, to an upstream whose round trip fails
+func (w *world) upstreamFault(pw *c.ProxyWorld, g *hostile, xhr bool) *httptest.ResponseRecorder {
+	method := faultMethods[curSalt%5] // HEAD has no body to look at
+	p := (&url.URL{Path: "/" + strings.TrimLeft(g.next(), "/")}).EscapedPath()
+	ck := w.proxySession(pw, g, "u"+tokenOf(g.next())+"@corp.test", 2*time.Hour, 2*time.Hour)
+	return w.pDoM(pw, method, p+"?q="+qe(g.next()), xhr, ck)
 }
 
 var proxySites = []pSite{
@@ -244,6 +263,18 @@ var proxySites = []pSite{
 			ck := w.proxySession(w.proxyW, g, g.next()+"@corp.test", -2*time.Minute, 2*time.Hour)
 			return w.pDo(w.proxyW, "/page", xhr, ck), nil
 		}},
+	{name: "request: authenticated, upstream refuses the connection -> bare 502 (reverse_proxy.go, httputil.ReverseProxy error path)", want: 502, static: true, bare: true,
+		run: func(w *world, g *hostile, xhr bool) (*httptest.ResponseRecorder, *errData) {
+			return w.upstreamFault(w.proxyW, g, xhr), nil
+		}},
+	{name: "request: authenticated, upstream resets the connection -> bare 502", want: 502, static: true, bare: true,
+		run: func(w *world, g *hostile, xhr bool) (*httptest.ResponseRecorder, *errData) {
+			return w.upstreamFault(w.proxyRst, g, xhr), nil
+		}},
+	{name: "request: authenticated, upstream slower than the upstream timeout -> 503 with the TimeoutHandler message (reverse_proxy.go:219)", want: 503, static: true, bare: true, few: true,
+		run: func(w *world, g *hostile, xhr bool) (*httptest.ResponseRecorder, *errData) {
+			return w.upstreamFault(w.proxySlow, g, xhr), nil
+		}},
 	{name: "request without session on XHR: OAuthStart refuses (:324)", want: 401, static: true, xhrOnly: true,
 		run: func(w *world, g *hostile, xhr bool) (*httptest.ResponseRecorder, *errData) {
 			return w.pDo(w.proxyW, "/page?x="+qe(g.next()), true), nil
@@ -256,6 +287,24 @@ func (w *world) sameCase(svc, site int, name string, hl []string, ctype, real, b
 		JSON: map[string]interface{}{"kind": "call-site", "service": []string{"sso-proxy", "sso-auth"}[svc], "site": name,
 			"hostile_inputs": quoteAll(hl), "content_type": ctype, "body_len": len(real), "combinations": varNames}})
 	w.nSame++
+}
+
+// divergedCase: the code under test did not do what the model says for this request (expected
+// status / template call missing). Never a harness error: the bytes served are judged by the
+// inertness monitor against the benign run, and the case always counts as a model difference.
+func (w *world) divergedCase(svc, site int, name, what string, hl []string, rec, recB *httptest.ResponseRecorder) {
+	ct, real, benign, code := "", "", "", 0
+	if rec != nil {
+		ct, real, code = ctOf(rec), rec.Body.String(), rec.Code
+	}
+	if recB != nil {
+		benign = recB.Body.String()
+	}
+	w.cases = append(w.cases, c.Case{
+		Coq: fmt.Sprintf("CDiverged %d %d %s\n %s\n %s", svc, site, ctCoq(ct), bs(real), recipe(real, benign)),
+		JSON: map[string]interface{}{"kind": "diverged", "service": []string{"sso-proxy", "sso-auth"}[svc], "site": name,
+			"what": what, "status": code, "hostile_inputs": quoteAll(hl), "content_type": ct, "body": fmt.Sprintf("%.600q", real)}})
+	w.nDiverged++
 }
 
 func quoteAll(l []string) []string {
@@ -275,9 +324,11 @@ func (w *world) proxySiteCase(idx int, hl []string, must bool, variants []vmode)
 	curTS = time.Now().Unix()
 	hh := hostileHeaders(idx+len(hl[0]), hl[len(hl)-1])
 	defer func() { curMode, curTS = rmode{}, 0 }()
+	curSalt++
+	var failRec, failRecB *httptest.ResponseRecorder
 	fail := func(what string, code int) {
 		if must {
-			c.Must(fmt.Errorf("proxy call site %q not reached (%s, status %d)", s.name, what, code))
+			w.divergedCase(0, idx, s.name, fmt.Sprintf("call site not reached (%s, status %d, expected %d)", what, code, s.want), hl, failRec, failRecB)
 		}
 	}
 	run := func(hostileRun bool, v vmode) (*httptest.ResponseRecorder, *errData) {
@@ -291,6 +342,7 @@ func (w *world) proxySiteCase(idx int, hl []string, must bool, variants []vmode)
 	if s.xhrOnly {
 		rec, _ := run(true, vmode{xhr: true})
 		recB, _ := run(false, vmode{xhr: true})
+		failRec, failRecB = rec, recB
 		if rec == nil || recB == nil {
 			fail("request refused by net/http", 0)
 		} else if rec.Code != s.want {
@@ -302,8 +354,9 @@ func (w *world) proxySiteCase(idx int, hl []string, must bool, variants []vmode)
 	}
 	rec, data := run(true, vmode{})
 	recB, _ := run(false, vmode{})
+	failRec, failRecB = rec, recB
 	if rec == nil || recB == nil {
-		fail("request refused by net/http", 0)
+		fail("no response", 0)
 		return
 	}
 	if rec.Code != s.want || recB.Code != s.want {
@@ -316,15 +369,32 @@ func (w *world) proxySiteCase(idx int, hl []string, must bool, variants []vmode)
 		r, _ := run(true, v)
 		rb, _ := run(false, v)
 		if r == nil || rb == nil || r.Code != s.want || rb.Code != s.want {
+			failRec, failRecB = r, rb
 			fail("combination "+v.String(), 0)
 			continue
 		}
 		mode := 0
-		if v.xhr { // ErrorPage: isXHR -> XHRError
+		if s.bare { // not an ErrorPage call site: same bytes whatever the combination
+			mode = 2
+		} else if v.xhr { // ErrorPage: isXHR -> XHRError
 			mode = 1
 		}
 		vars = append(vars, varCoq(mode, ctOf(r), r.Body.String(), real, rb.Body.String(), benign))
 		names = append(names, v.String())
+	}
+	// the identical request once more, after all the others (state carried between requests)
+	if r, _ := run(true, vmode{}); r != nil {
+		if rb, _ := run(false, vmode{}); rb != nil && r.Code == s.want && rb.Code == s.want {
+			rmodeN := 0
+			if s.bare {
+				rmodeN = 2
+			}
+			vars = append(vars, varCoq(rmodeN, ctOf(r), r.Body.String(), real, rb.Body.String(), benign))
+			names = append(names, "the same request again, after the others")
+		} else {
+			failRec, failRecB = r, rb
+			fail("repeat", r.Code)
+		}
 	}
 	if s.static {
 		w.sameCase(0, idx, s.name+hdrNote, hl, ctOf(rec), real, benign, vars, names)
@@ -336,7 +406,47 @@ func (w *world) proxySiteCase(idx int, hl []string, must bool, variants []vmode)
 // ---------------------------------------------------------------------------------------------
 // sso-auth: Authenticators built by auth.NewAuthenticator with a scriptable provider
 
-func buildCtlAuth(allowDomains []string) *authWorld {
+// slowProvider is the scriptable test provider with an optional pause in every call the
+// authenticator makes to its identity provider (a slow peer).
+type slowProvider struct {
+	*providers.TestProvider
+	delay time.Duration
+	done  chan struct{}
+}
+
+func (p *slowProvider) pause() {
+	if p.delay > 0 {
+		time.Sleep(p.delay)
+		select {
+		case p.done <- struct{}{}:
+		default:
+		}
+	}
+}
+func (p *slowProvider) RefreshAccessToken(s string) (string, time.Duration, error) {
+	p.pause()
+	return p.TestProvider.RefreshAccessToken(s)
+}
+func (p *slowProvider) RefreshSessionIfNeeded(s *sessions.SessionState) (bool, error) {
+	p.pause()
+	return p.TestProvider.RefreshSessionIfNeeded(s)
+}
+func (p *slowProvider) ValidateGroupMembership(a string, b []string, c string) ([]string, error) {
+	p.pause()
+	return p.TestProvider.ValidateGroupMembership(a, b, c)
+}
+func (p *slowProvider) Redeem(a, b string) (*sessions.SessionState, error) {
+	p.pause()
+	return p.TestProvider.Redeem(a, b)
+}
+func (p *slowProvider) Revoke(s *sessions.SessionState) error {
+	p.pause()
+	return p.TestProvider.Revoke(s)
+}
+
+// buildCtlAuth assembles the handler chain of cmd/sso-auth/main.go around one Authenticator:
+// logging handler -> http.TimeoutHandler(request timeout, "") -> ServeMux.
+func buildCtlAuth(allowDomains []string, requestTimeout time.Duration) *authWorld {
 	cfg := auth.Configuration{
 		ServerConfig: auth.ServerConfig{Host: authHost, Port: 4180, Scheme: "https"},
 		SessionConfig: auth.SessionConfig{
@@ -353,9 +463,10 @@ func buildCtlAuth(allowDomains []string) *authWorld {
 	sc, err := statsd.New("127.0.0.1:8125")
 	c.Must(err)
 	tp := providers.NewTestProvider(nil)
+	sp := &slowProvider{TestProvider: tp, done: make(chan struct{}, 8)}
 	a, err := auth.NewAuthenticator(cfg,
 		auth.SetValidators([]validators.Validator{validators.NewEmailDomainValidator(allowDomains)}),
-		auth.SetProvider(tp),
+		auth.SetProvider(sp),
 		auth.SetCookieStore(cfg.SessionConfig, "test"),
 		auth.SetStatsdClient(sc),
 		auth.SetRedirectURL(cfg.ServerConfig, "test"))
@@ -364,7 +475,8 @@ func buildCtlAuth(allowDomains []string) *authWorld {
 	c.Must(err)
 	cipher, err := aead.NewMiscreantCipher(sec)
 	c.Must(err)
-	w := &authWorld{h: a.ServeMux, tp: tp, cipher: cipher}
+	h := auth.NewLoggingHandler(io.Discard, http.TimeoutHandler(a.ServeMux, requestTimeout, ""), true, sc)
+	w := &authWorld{h: h, tp: tp, sp: sp, cipher: cipher}
 	auth.VerifRecordTemplateDataOne(a, func(name string, data interface{}) { w.lastN, w.last = name, data })
 	return w
 }
@@ -440,9 +552,13 @@ func zoneRedirect(payload string) string {
 	return "http://[::1%25" + sb.String() + ".example.test]/cb"
 }
 
+// curSalt varies the input shapes a site picks (which kind of redirect host, which method ...);
+// it is fixed during one call-site case so that repeated runs send the identical request
+var curSalt int
+
 func hostileRedirect(g *hostile) string {
 	var r string
-	switch g.i % 3 {
+	switch (g.i + curSalt) % 3 {
 	case 0:
 		r = zoneRedirect(g.next())
 	case 1:
@@ -493,18 +609,17 @@ func tokenOf(s string) string {
 	return "X" + string(b)
 }
 
+// Not in the list: the ParseForm-error call sites (middleware.go:59,86,111,143, authenticator.go:298,
+// 535). In the handler chain of cmd/sso-auth/main.go the logging handler calls req.ParseForm()
+// first (getProxyHost) and drops the error; every later ParseForm returns nil, so these sites
+// are not reachable in the real service (a request with a bad escape continues with the
+// parameters that did parse).
 var authSites = []aSite{
 	{name: "withMethods: method not allowed (middleware.go:44)", want: 405,
 		run: func(w *world, g *hostile, j bool) (*authWorld, *httptest.ResponseRecorder) {
 			a := w.ctlA
 			a.resetTP()
 			return a, a.serve(aReq{method: tokenOf(g.next()), target: "/start?x=" + qe(g.next())}, j)
-		}},
-	{name: "validateClientID: ParseForm error (middleware.go:59)", want: 500,
-		run: func(w *world, g *hostile, j bool) (*authWorld, *httptest.ResponseRecorder) {
-			a := w.ctlA
-			a.resetTP()
-			return a, a.serve(aReq{method: "GET", target: "/sign_in?client_id=" + proxyClientID + "&x=%" + string("<\"'>~!"[g.i%6]) + rawBytes(g.next(), 2)}, j)
 		}},
 	{name: "validateClientID: invalid client_id (middleware.go:72)", want: 401,
 		run: func(w *world, g *hostile, j bool) (*authWorld, *httptest.ResponseRecorder) {
@@ -538,7 +653,8 @@ var authSites = []aSite{
 			a := w.ctlA
 			a.resetTP()
 			q := "client_id=" + proxyClientID + "&" + signedQuery(hostileRedirect(g)) + "&state=" + qe(g.next())
-			if raw := rawBytes(g.next(), 40); raw != "" {
+			// an extra, unsigned parameter with the raw bytes of every hostile string
+			if raw := rawBytes(strings.Join(g.l, ""), 160); raw != "" {
 				q += "&z=" + raw
 			}
 			return a, a.serve(aReq{method: "GET", target: "/sign_in?" + q}, j)
@@ -618,12 +734,6 @@ var authSites = []aSite{
 				ru = "https://sso-auth.example.test/sign_in?redirect_uri=" + qe(hostileRedirect(g)) + "&sig=" + qe(g.next()) + "&ts=" + qe(g.next())
 			}
 			return a, a.serve(aReq{method: "GET", target: "/start?redirect_uri=" + qe(ru)}, j)
-		}},
-	{name: "OAuthCallback: ParseForm error (authenticator.go:624 <- 535)", want: 500,
-		run: func(w *world, g *hostile, j bool) (*authWorld, *httptest.ResponseRecorder) {
-			a := w.ctlA
-			a.resetTP()
-			return a, a.serve(aReq{method: "GET", target: "/callback?code=a&x=%" + string("<\"'>~!"[g.i%6]) + rawBytes(g.next(), 2)}, j)
 		}},
 	{name: "OAuthCallback: provider error parameter (authenticator.go:624 <- 541)", want: 403,
 		run: func(w *world, g *hostile, j bool) (*authWorld, *httptest.ResponseRecorder) {
@@ -729,16 +839,19 @@ func (w *world) authSiteCase(idx int, hl []string, must bool, variants []vmode) 
 		curMode = rmode{hasAccept: v.hasAccept, accept: v.accept, xhr: v.xhr, hdr: benignHeaders}
 		return s.run(w, &hostile{l: benignList}, false)
 	}
+	curSalt++
 	a, rec := run(true, vmode{})
 	if rec == nil {
 		if must {
-			c.Must(fmt.Errorf("auth call site %q: request refused by net/http", s.name))
+			w.divergedCase(1, idx, s.name, "no response", hl, nil, nil)
 		}
 		return
 	}
 	if rec.Code != s.want || a.last == nil {
-		if must {
-			c.Must(fmt.Errorf("auth call site %q not reached: status %d, template %q", s.name, rec.Code, a.lastN))
+		// reached with another status, or a page was served without the (recorded) template call
+		if must || rec.Code == s.want {
+			_, recB := run(false, vmode{})
+			w.divergedCase(1, idx, s.name, fmt.Sprintf("status %d (expected %d), template call recorded: %v", rec.Code, s.want, a.last != nil), hl, rec, recB)
 		}
 		return
 	}
@@ -757,7 +870,7 @@ func (w *world) authSiteCase(idx int, hl []string, must bool, variants []vmode) 
 		_, rb := run(false, v)
 		if r == nil || rb == nil || r.Code != rec.Code || rb.Code != rec.Code {
 			if must {
-				c.Must(fmt.Errorf("auth call site %q: combination %s not reached", s.name, v))
+				w.divergedCase(1, idx, s.name, "combination "+v.String()+" not reached", hl, r, rb)
 			}
 			continue
 		}
@@ -767,6 +880,16 @@ func (w *world) authSiteCase(idx int, hl []string, must bool, variants []vmode) 
 		}
 		vars = append(vars, varCoq(mode, ctOf(r), r.Body.String(), real, rb.Body.String(), benign))
 		names = append(names, v.String())
+	}
+	// the identical request once more, after all the others (state carried between requests:
+	// caches, pools, memo tables)
+	if _, r := run(true, vmode{}); r != nil {
+		if _, rb := run(false, vmode{}); rb != nil && r.Code == rec.Code && rb.Code == rec.Code {
+			vars = append(vars, varCoq(0, ctOf(r), r.Body.String(), real, rb.Body.String(), benign))
+			names = append(names, "the same request again, after the others")
+		} else if must {
+			w.divergedCase(1, idx, s.name, "repeat of the same request not answered alike", hl, r, rb)
+		}
 	}
 	w.pageCaseB(1, name, data, ctOf(rec), real, benign, 1, s.name+hdrNote, vars, names)
 }
@@ -778,7 +901,12 @@ func (w *world) siteCorpus() {
 	for i := range proxySites {
 		for k, hl := range classicHostile {
 			vs := someVariants(i+k, 4)
-			if k == 0 {
+			if proxySites[i].few {
+				if k%3 != 0 {
+					continue
+				}
+				vs = []vmode{{hasAccept: true, accept: "text/html"}}
+			} else if k == 0 {
 				vs = allVariants()
 			}
 			w.proxySiteCase(i, hl, true, vs)
@@ -799,8 +927,71 @@ func (w *world) siteRandom(r *c.Rng) {
 	hl := genHostileList(r)
 	vs := someVariants(r.Intn(1000), 3)
 	if r.Intn(3) == 0 {
-		w.proxySiteCase(r.Intn(len(proxySites)), hl, false, vs)
+		i := r.Intn(len(proxySites))
+		for proxySites[i].few {
+			i = r.Intn(len(proxySites))
+		}
+		w.proxySiteCase(i, hl, false, vs)
 	} else {
 		w.authSiteCase(r.Intn(len(authSites)), hl, false, vs)
+	}
+}
+
+
+// timeoutSequences: a slow identity provider behind the request timeout of cmd/sso-auth/main.go.
+// One request's provider call outlives http.TimeoutHandler and then fails (the handler writes its
+// error response after the deadline); afterwards the call sites are observed again on the same
+// instance: whatever the late write left behind (buffers, pools) must not show in later answers.
+const timeoutDefaultBody = "<html><head><title>Timeout</title></head><body><h1>Timeout</h1></body></html>"
+
+func (w *world) timeoutSequences() {
+	t := w.ctlT
+	siteIdx := func(prefix string) int {
+		for i, s := range authSites {
+			if strings.HasPrefix(s.name, prefix) {
+				return i
+			}
+		}
+		return -1
+	}
+	slowSites := []string{"Refresh: provider error string", "GetProfile: provider error string", "SignIn: refresh fails with a provider error string"}
+	after := []string{"Refresh: provider error string", "OAuthCallback: provider error parameter", "validateClientID: invalid client_id"}
+	saveA := w.ctlA
+	w.ctlA = t
+	defer func() { w.ctlA = saveA }()
+	jsonFirst := []vmode{{hasAccept: true, accept: "application/json"}, {hasAccept: true, accept: "text/html"}}
+	for k, name := range slowSites {
+		idx := siteIdx(name)
+		if idx < 0 {
+			continue
+		}
+		hl := classicHostile[k%len(classicHostile)]
+		// 1. the slow request: the provider answers (with an error) 300ms after the deadline
+		for len(t.sp.done) > 0 {
+			<-t.sp.done
+		}
+		t.sp.delay = 450 * time.Millisecond
+		curMode = rmode{hasAccept: k != 2, accept: "application/json", hdr: hostileHeaders(k, hl[0])}
+		_, rec := authSites[idx].run(w, &hostile{l: hl}, false)
+		curMode = rmode{}
+		if rec == nil || rec.Code != http.StatusServiceUnavailable {
+			w.divergedCase(1, 950+k, "request timeout: "+name, "a request whose provider call outlives the request timeout is not answered with the 503 of http.TimeoutHandler", hl, rec, nil)
+		} else {
+			// http.TimeoutHandler's own default page (message ""): must not depend on the request
+			w.sameCase(1, 950+k, "request timeout (http.TimeoutHandler, 150ms; provider answers after 450ms): "+name, hl, ctOf(rec), rec.Body.String(), timeoutDefaultBody, nil, nil)
+		}
+		// 2. let the late handler finish writing into the timed-out response
+		select {
+		case <-t.sp.done:
+		case <-time.After(3 * time.Second):
+		}
+		time.Sleep(120 * time.Millisecond)
+		t.sp.delay = 0
+		// 3. the same instance afterwards
+		for j, an := range after {
+			if ai := siteIdx(an); ai >= 0 {
+				w.authSiteCase(ai, classicHostile[(k+j+1)%len(classicHostile)], true, jsonFirst)
+			}
+		}
 	}
 }
